@@ -13,6 +13,11 @@ a static entry stays stored and unchanged until it is removed with `remove` / `t
 (all `&mut self`) — in particular when the same key had been loaded (and registered with the
 reloader), removed or cleared before and was re-created by `get_or_insert`.
 
+Loaders may call `get_or_insert` themselves (`Prog.getOrInsert`): a cell created during an evaluation
+was created by a load (dynamic iff hot type and reloader) or by a loader's `get_or_insert` (static) —
+`C10_loaded_dynamic_iff`; for loaders that never call it the sharper former statement holds
+(`C10_loaded_dynamic_iff_no_insert`).
+
 All theorems quantify over every environment (source, fault plan, type table, constructor), every
 fuel, every cache and reloader state (`St`, `RSt`), every loader program.
 -/
@@ -160,6 +165,42 @@ example : (eval (exEnv 1) 5 {} (.getOrInsert exKey (.int 7) .ret)).1.lookup exKe
   intro h
   have := h.1.mpr ⟨rfl, rfl⟩
   cases this
+
+/-- **The former statement, for loaders that do not call `get_or_insert`** (neither the program nor any
+loader of the type table — every loader written before `AnyCache::get_or_insert` is used re-entrantly):
+a cell created at any depth of the evaluation is dynamic iff its type is hot-reloaded AND the cache has
+a reloader; reload id `NEVER`, flag clear. -/
+theorem C10_loaded_dynamic_iff_no_insert (env : Env) (henv : env.NoInsert) (fuel : Nat) (s : St) (p : Prog)
+    (hp : p.NoInsert) (k : Key) (c : Cell)
+    (hnew : s.lookup k = none) (h : (eval env fuel s p).1.lookup k = some c) : FreshCell env k c := by
+  have hP : ∀ key v addr, FreshCell env key (newCell env key.ty v addr) := by
+    intro key v addr
+    refine ⟨?_, rfl, rfl⟩
+    simp only [newCell, loadedEntryDynamic_cfg, Bool.and_eq_true]
+  rcases eval_added_noInsert env henv (FreshCell env) hP fuel s p hp k c h with h' | h'
+  · rw [hnew] at h'; cases h'
+  · exact h'
+
+theorem exEnv_noInsert (n : Int) : (exEnv n).NoInsert := fun _ _ => Prog.NoInsert.ret _
+
+example : FreshCell (exEnv 1) exKey ⟨.int 1, true, 0, false, 0⟩ :=
+  C10_loaded_dynamic_iff_no_insert (exEnv 1) (exEnv_noInsert 1) 5 {} (.load exKey Prog.ret')
+    (Prog.NoInsert.load _ _ Prog.NoInsert.ret') exKey _ rfl (by decide)
+
+/-- …and for the API operation `load` under such a type table -/
+theorem C10_load_dynamic_iff_no_insert (env : Env) (henv : env.NoInsert) (fuel : Nat) (s : St) (key k : Key) (c : Cell)
+    (hnew : s.lookup k = none) (h : (step env fuel s (.load key)).1.lookup k = some c) : FreshCell env k c := by
+  rw [step_load_fst] at h
+  have hP : ∀ key v addr, FreshCell env key (newCell env key.ty v addr) := by
+    intro key v addr
+    refine ⟨?_, rfl, rfl⟩
+    simp only [newCell, loadedEntryDynamic_cfg, Bool.and_eq_true]
+  rcases (Added.mapRel₀ hP).evalTop_rel henv fuel s _ (Prog.NoInsert.load _ _ Prog.NoInsert.ret') k c h with h' | h'
+  · rw [hnew] at h'; cases h'
+  · exact h'
+
+example : FreshCell (exEnvOpt 1) exKeyOpt ⟨.int 1, false, 0, false, 0⟩ :=
+  C10_load_dynamic_iff_no_insert (exEnvOpt 1) (fun _ _ => Prog.NoInsert.ret _) 5 {} exKeyOpt exKeyOpt _ rfl (by decide)
 
 /-- the same for the API operation `load` -/
 theorem C10_load_dynamic_iff (env : Env) (fuel : Nat) (s : St) (key k : Key) (c : Cell)
